@@ -88,10 +88,24 @@ What is PROVED here:
                                  `sortedStore_slice`: the slice is key-sorted (proved, Lemmas/ManifestSorted.lean);
   * `ctxWF_not_from_conformance` `CtxWF` is NOT derivable from `ConformsRequest` (a context list binding a key twice conforms).
 
-What REMAINS: the "keeps more entities" half of `slice_monotone` (store level: `t ≤ t'` ⇒ slice by `t` is a sub-store of the slice by `t'`):
-`slice_monotone_entities_needs_flags` proves that it is FALSE for `AccessTrie.le` alone (the order ignores the `is_entity_type`
-annotations; two tries requesting the same paths with different annotations give incomparable slices), the positive statement for
-tries with agreeing annotations is open; `typedAst` is a specification-level definition (Lemmas/ManifestValid.lean, written
+  * `slice_monotone_store`       STORE-LEVEL MONOTONICITY ("a larger trie keeps more entities"): `rootsLe t t'` and agreeing
+                                 `is_entity_type` annotations (`FlagsAgreeRoots t t'`: at corresponding nodes `t'` is annotated
+                                 entity-typed only where `t` is; nothing is required of ancestors tries) ⇒ the store sliced
+                                 by `t` is a sub-store of the store sliced by `t'` (every entity, with at least its attributes
+                                 and ancestors).  No well-formedness / conformance hypothesis.  Ingredients
+                                 (Lemmas/ManifestMono.lean): `pruneFields_le` (pruning respects the annotated order `leA`),
+                                 `expandValue_mono` / `allRequests_mono` (every entity request is matched by a larger one),
+                                 `loadAll_below` (merged loads), `ancValue_mono` / `ancRequest_mono`, `addAncestors_upper`.
+                                 `slice_monotone_entities_needs_flags`: the annotation condition cannot be dropped;
+  * `manifest_union_grows`       adding a policy only grows the slice: the manifest entry of `ps ++ [p]` is `≥` the entry of
+                                 `ps` with agreeing annotations (`rootsLeA`; `rootsLe_union_right`: `t₀ ≤ t ⇒ t₀ ≤ t ∪ v`,
+                                 `toTypedRoots_mono`: `to_typed` maps `≤` to `leA`; Lemmas/ManifestGrow.lean), hence the
+                                 slices are ordered for every request and store.  Hypothesis: the un-annotated trie of `ps`
+                                 is `≤` itself (unique root / ancestors-trie keys; checkable, not derived from the analysis).
+
+What REMAINS: deriving the self-comparability hypothesis of `manifest_union_grows` from the analysis (`RootsWF` covers children
+keys only, not root keys / ancestors tries);
+`typedAst` is a specification-level definition (Lemmas/ManifestValid.lean, written
 from typecheck.rs; the differential run takes the typed ASTs from Rust and does not diff `typedAst` against them).
 `FullStatement` (whose hypothesis `p.condition = te.erase` restricts it to typed ASTs without short-circuit transformation)
 is FALSE for the analysed code outside the stated exclusions' complement in two ways found by this check (see
@@ -366,8 +380,7 @@ from `t'`") does NOT hold for the order `AccessTrie.le` / `rootsLe` alone, which
 and differ only in the annotation of `r` give slices of which the first is not a sub-store of the second — under the
 entity-typed annotation `prune_child_entity_dereferences` drops the request for `r.x`, so the "larger" slice has `r = {}`
 while the "smaller" one has `r = {x: 1}`.  So any true statement needs a side condition on the annotations (agreeing
-`is_entity_type` flags at corresponding nodes, or `FlagsRoots` for both tries); the positive theorem under that condition is
-NOT proved here. -/
+`is_entity_type` flags at corresponding nodes); the positive theorem under that condition is `slice_monotone_store` below. -/
 theorem slice_monotone_entities_needs_flags :
     rootsLe MonoCex.small MonoCex.large ∧ rootsLe MonoCex.large MonoCex.small ∧
     ¬ SubStore (sliceStorePure MonoCex.large MonoCex.req MonoCex.store) (sliceStorePure MonoCex.small MonoCex.req MonoCex.store) := by
